@@ -477,6 +477,63 @@ def r4(ctx):
                        "after the append a full deque is always full: the carry would grow on every injection")
 
 
+# --------------------------------------------------------------------------- R5
+
+def r5(ctx):
+    repo = ctx.repo
+    ctx.rule("C04.R5", "every wire ID that get_effective_id produces for a forwarded packet (stored into <msg>.packet_id) "
+                       "is fed to track_seen of the same tracker on every path: gen_injectable_id allocates "
+                       "_packet_id_base + 1, which is only above all used wire IDs if all of them were seen")
+    sites = []
+    for f, c in call_index(repo).get("get_effective_id", []):
+        stmt = c
+        for a in ancestors(c):
+            if isinstance(a, ast.stmt):
+                stmt = a
+                break
+        if not (isinstance(stmt, ast.Assign) and stmt.value is c and len(stmt.targets) == 1 and isinstance(c.func, ast.Attribute)):
+            continue
+        tracker = ap(c.func.value)
+        tg = stmt.targets[0]
+        ids = set()
+        if isinstance(tg, ast.Attribute) and tg.attr == "packet_id":
+            ids.add(ap(tg))
+        elif isinstance(tg, ast.Name):
+            # wire_id = t.get_effective_id(...); msg.packet_id = wire_id
+            for st in stores(f.node, into_defs=True):
+                if st.kind == "assign" and st.path.endswith(".packet_id") and isinstance(st.value, ast.Name) \
+                        and st.value.id == tg.id and _stored_once(f, tg.id):
+                    ids |= {tg.id, st.path}
+        if tracker and ids:
+            sites.append((f, stmt, tracker, ids))
+    ctx.floor("C04.R5", "forwarded-packet ID translations", len(sites), 1)
+    for f, stmt, tracker, ids in sites:
+        # nested defs are analysed through their top-level function's CFG only when the statement is at top level
+        cfg = CFG(f.node)
+        starts = cfg.nodes_for(stmt)
+        ctx.require(bool(starts), f"C04.R5: {f.qual}: translation statement not in the function's own CFG")
+
+        def feeds(n):
+            if n.ast is None or n.kind != "stmt":
+                return False
+            for c in calls(n.ast):
+                if ap(c.func) == f"{tracker}.track_seen" and len(c.args) == 1 and ap(c.args[0]) in ids:
+                    return True
+                # helper extracted from the caller: self.h(..., tracker, ...) whose body calls <param>.track_seen(...)
+                if isinstance(c.func, ast.Attribute) and ap(c.func.value) in ("self", "cls") and f.cls is not None \
+                        and any(ap(a) == tracker for a in c.args):
+                    h = repo.lookup_method(f.cls, c.func.attr)
+                    if h is not None and any(isinstance(x.func, ast.Attribute) and x.func.attr == "track_seen" for x in calls(h.node)):
+                        return True
+            return False
+        for s0 in starts:
+            wit = cfg.witness_path(s0, lambda n: n is cfg.exit, avoid=feeds, exc=False)
+            ctx.ob("C04.R5", f"{f.qual}: `{norm(stmt)}` is followed by {tracker}.track_seen(<that id>) on every path", wit is None,
+                   ctx.w(f, stmt), "a forwarded wire ID can leave without raising the tracker's highest-seen ID: the next "
+                                   "injected packet may be given the same wire ID",
+                   path=cfg.describe_path(wit) if wit else None)
+
+
 def _is_len_deq(e):
     return isinstance(e, ast.Call) and ap(e.func) == "len" and len(e.args) == 1 and ap(e.args[0]) == DEQ
 
@@ -486,4 +543,5 @@ def run(ctx):
     r2_early_exit(ctx)
     r3_symmetry(ctx)
     r4(ctx)
+    r5(ctx)
     ctx.assume("the bijection law over all histories is arithmetic over runtime state and is not decided statically")
